@@ -50,7 +50,7 @@ def verify_one(args):
         from contracts import load_all
         from pyvc import contract as C, solve, front
         solve.THOROUGH = thorough
-        budget = float(os.environ.get("VERIF_JOB_BUDGET_S", "1500" if thorough else "240"))
+        budget = float(os.environ.get("VERIF_JOB_BUDGET_S", "1500" if thorough else "360"))
         solve.DEADLINE[0] = time.time() + budget
         reg = load_all()
         con = reg[qual]
@@ -71,7 +71,8 @@ def verify_one(args):
                          "known_ids": list(getattr(o, "known_ids", []) or [])})
         return {"qual": qual, "shard": initial, "relpath": con.relpath, "ast_hash": res.ast_hash, "paths": res.paths,
                 "feasible": res.feasible_paths, "outcomes": res.outcomes, "wall": res.wall,
-                "inlined": sorted(res.inlined), "assumed": sorted(res.assumed), "notes": sorted(res.notes), "obligations": obls, "error": None,
+                "inlined": sorted(res.inlined), "assumed": sorted(res.assumed), "notes": sorted(res.notes), "callees": sorted(getattr(res, "callees", [])),
+                "obligations": obls, "error": None,
                 "solver_s": solve.STATS["solver_s"], "cross": solve.CROSS, "stats": dict(solve.STATS)}
     except Exception as ex:
         kind = type(ex).__name__
@@ -104,6 +105,7 @@ def merge_shards(rs, quals):
         m["inlined"] = sorted(set(m["inlined"]) | set(r["inlined"]))
         m["assumed"] = sorted(set(m.get("assumed", [])) | set(r.get("assumed", [])))
         m["notes"] = sorted(set(m.get("notes", [])) | set(r.get("notes", [])))
+        m["callees"] = sorted(set(m.get("callees", [])) | set(r.get("callees", [])))
         m["cross"] += r.get("cross", [])
     return [out[q] for q in quals if q in out]
 
@@ -161,18 +163,49 @@ def run_property(pid, tier):
     if quals:
         from contracts import load_all
         reg0 = load_all()
-        jobs = []
-        for q in quals:
-            sh = getattr(reg0[q], "shards", None)
-            for pre in (sh or [None]):
-                jobs.append((q, thorough, pre))
-        # longest first
-        jobs.sort(key=lambda j: 0 if j[2] is not None else 1)
-        nproc = min(len(jobs), int(os.environ.get("VERIF_JOBS", "16")))
+        # Verification is modular: a caller is checked against its callees' contracts, so every contract applied at a call site must
+        # itself be verified against its body in the same run (unless it is an ASSUMED summary, listed as such). The set is closed
+        # dynamically: round k verifies what round k-1 was seen to call. `closure_hints.json` (committed, produced by
+        # tools/mkclosure.py) only moves later rounds into the first one; it never removes anything.
+        def verifiable(q):
+            c = reg0.get(q)
+            return c is not None and hasattr(c, "pre_state") and not q.startswith(("loop:", "builtin:", "method:", "construct:", "seqmethod:", "body:")) \
+                and (not getattr(c, "assumed", False) or getattr(c, "concrete", None) is not None)
+        hints = []
+        try:
+            with open(os.path.join(HERE, "closure_hints.json")) as f:
+                hints = [q for q in json.load(f).get(pid, []) if verifiable(q)]
+        except Exception:
+            hints = []
+        declared = list(quals)
+        pending = list(quals) + [q for q in hints if q not in quals]
+        quals = []
+        shard_results = []
         ctx = multiprocessing.get_context("fork")
-        with ctx.Pool(nproc) as pool:
-            shard_results = pool.map(verify_one, jobs, chunksize=1)
+        rounds = 0
+        while pending:
+            rounds += 1
+            jobs = []
+            for q in pending:
+                sh = getattr(getattr(reg0[q], "concrete", reg0[q]), "shards", None) or getattr(reg0[q], "shards", None)
+                for pre in (sh or [None]):
+                    jobs.append((q, thorough, pre))
+            # longest first
+            jobs.sort(key=lambda j: 0 if j[2] is not None else 1)
+            nproc = min(len(jobs), int(os.environ.get("VERIF_JOBS", "16")))
+            with ctx.Pool(nproc) as pool:
+                got = pool.map(verify_one, jobs, chunksize=1)
+            shard_results += got
+            quals += pending
+            called = set()
+            for r in got:
+                called |= set(r.get("callees", []))
+            pending = sorted(q for q in called if q not in quals and verifiable(q))
         results = merge_shards(shard_results, quals)
+        closure_added = [q for q in quals if q not in declared]
+        if os.environ.get("VERIF_WRITE_HINTS"):
+            with open(os.environ["VERIF_WRITE_HINTS"], "a") as f:
+                f.write(json.dumps({pid: closure_added}) + "\n")
     select = getattr(prop, "select", None)
     all_obls = []
     functions = []
